@@ -740,7 +740,7 @@ def header_coordinates(facts, res):
             if not re.match(r"^objectData\.(template ?)?getViewerForBlock(Const)?<1>\(\)\.getItem\(%s\)\.%s$" % (re.escape(par), fld), t):
                 ok = False
                 res.violation(R, tbf.rel(facts.path_of(ms[0])), ms[0]["qname"], "accessor:" + name, ms[0]["l"][1], "%s does not return the `%s` field of header `%s` of block 1 (found `%s`)" % (name, fld, par, t[:120]))
-    res.floor(R, n, 7, "header coordinate writes and accessors")
+    res.floor(R, n, 6, "header coordinate writes and accessors")
     return ok
 
 
